@@ -271,7 +271,11 @@ Fixpoint first_match (e:expr) (subs:list expr) : option nat :=
 Fixpoint submergers (e:expr) (subs:list expr) : list (option smfn) :=
   match e with
   | EField _ | EConst _ => map (fun _ => None) subs
-  | EBounded e _ _ | EUnary _ e => submergers e subs
+  | EUnary _ e => submergers e subs
+  | EBounded w _ _ =>
+      if existsb (same_string e) subs
+      then map (fun s => if same_string e s then Some (merge_first w) else None) subs
+      else submergers w subs
   | EAgg _ _ | EAvg _ _ => map (fun s => if same_string e s then Some (merge_first e) else None) subs
   | EBin o l r =>
       match first_match e subs with
